@@ -142,13 +142,13 @@ PROFILES["C12"]["scenarios"] = [s1(quick_runs=1800, quick_budget_s=40), s1("C07"
 # every operation. It serves C10's quantifier ("for every crash point before/after each individual log-store,
 # stable-store and snapshot-store operation") directly and rides along with the properties whose oracles it exercises.
 _S2R_TXT = (" In addition n evaluations of the replication sweep (scenario C10S2): one generated leader plan (10-26 steps quick: append, AppendEntries from nextIndex, heartbeat, "
-            "commit advance, leader change with truncation of uncommitted entries, leader-side compaction forcing InstallSnapshot, stale re-sends, vote requests) against one real "
+            "commit advance, leader change with truncation of uncommitted entries, configuration entries adding/removing a non-voter, leader-side compaction forcing InstallSnapshot, stale re-sends, vote requests) against one real "
             "server that snapshots and compacts by itself, run fault-free and then once per fault point (crash before and after every mutating store operation, error at every "
             "operation, thinned to 40 when there are more); such an evaluation is non-trivial when the fault-free run performed store operations and the server was caught up at "
             "the end; distinct = different hash of the plan.")
 def _s2r(runs, budget):
     return {"scenario": "C10S2", "profile": "C10S2", "quick_runs": runs, "quick_budget_s": budget, "thorough_runs": 400000, "thorough_budget_s": 600}
-for _p, _r, _b in (("C10", 900, 30), ("C04", 400, 15), ("C11", 400, 15), ("C12", 300, 12), ("C03", 300, 12), ("C02", 300, 12)):
+for _p, _r, _b in (("C10", 900, 30), ("C04", 400, 15), ("C11", 400, 15), ("C12", 300, 12), ("C03", 300, 12), ("C02", 300, 12), ("C07", 400, 15)):
     PROFILES[_p]["scenarios"] = PROFILES[_p]["scenarios"] + [_s2r(_r, _b)]
     PROFILES[_p]["rule"] = PROFILES[_p].get("rule", DEFAULT_RULE) + _S2R_TXT
 PROFILES["C10"]["level"] = "fault_enumeration"
